@@ -242,8 +242,19 @@ def segmentOut (s : Segment) : Json :=
     ("gen", optIntOut s.generation), ("deleted", s.deleted),
     ("incM", optList Json.str s.pre.includeMap), ("excM", optList Json.str s.pre.excludeMap)]
 
+/-- A store entry: the flag / segment object may carry an extra string member `"lk"`, the key under
+which the provider hands the item out; without it the item is filed under its own `key`. -/
+def flagEntry (j : Json) : P (String × Flag) := do
+  let f ← flag j
+  pure (strD j "lk" f.key, f)
+
+def segmentEntry (j : Json) : P (String × Segment) := do
+  let s ← segment j
+  pure (strD j "lk" s.key, s)
+
 def store (j : Json) : P Store := do
-  pure { flags := ← list flag (arrD j "flags"), segments := ← list segment (arrD j "segments") }
+  pure { flags := ← list flagEntry (arrD j "flags"),
+         segments := ← list segmentEntry (arrD j "segments") }
 
 def status (s : String) : P Status :=
   if s == "HEALTHY" then pure .healthy else if s == "STALE" then pure .stale
